@@ -20,6 +20,8 @@ let act_of (x : Sx.t) : act =
   | "next", [] -> ANext
   | "cancel", [] -> ACancel
   | "panic", [v] -> APanic (nat_of_int (Sx.int_of v))
+  | "maprh", [k] -> AMapRH (nat_of_int (Sx.int_of k))
+  | "sub", [] -> ASub
   | _ -> failwith ("act: " ^ Sx.show x)
 
 (* returns the handler and whether it is silent (the func() (int, string) fast path cannot log) *)
@@ -35,7 +37,7 @@ let handler_of (x : Sx.t) : handler * bool =
       (HNormal (acts, ret), silent)
   | _ -> failwith ("handler: " ^ Sx.show x)
 
-type cfg = { hs : handler list; silent : bool list; action : handler option; head : bool; dev : bool; reps : int }
+type cfg = { hs : handler list; silent : bool list; action : handler option; head : bool; dev : bool; reps : int; apprh : Datatypes.nat option }
 
 let cfg_of (input : Sx.t) : cfg =
   let hl name = List.map handler_of (Sx.args (Sx.field name input)) in
@@ -47,9 +49,10 @@ let cfg_of (input : Sx.t) : cfg =
     action = (match action with Some (h, _) -> Some h | None -> None);
     head = bool_of (List.hd (Sx.args (Sx.field "head" input)));
     dev = bool_of (List.hd (Sx.args (Sx.field "dev" input)));
-    reps = (match Sx.field_opt "reps" input with Some r -> Sx.int_of (List.hd (Sx.args r)) | None -> 1) }
+    reps = (match Sx.field_opt "reps" input with Some r -> Sx.int_of (List.hd (Sx.args r)) | None -> 1);
+    apprh = (match Sx.field_opt "apprh" input with Some r -> (match Sx.args r with [Sx.A "none"] -> None | [k] -> Some (nat_of_int (Sx.int_of k)) | _ -> None) | None -> None) }
 
-let ev_index = function Enter (i, _, _) | Exit i | Unwind i | NextCall i | NextRet i -> int_of_nat i
+let ev_index = function Enter (i, _, _) | Exit i | Unwind i | NextCall i | NextRet i -> int_of_nat i | Sent -> -1
 
 let sx_event : event -> Sx.t = function
   | Enter (i, st, c) -> Sx.L [Sx.A "en"; sx_int (int_of_nat i); sx_int (int_of_z st); sx_bool c]
@@ -57,6 +60,7 @@ let sx_event : event -> Sx.t = function
   | Unwind i -> Sx.L [Sx.A "uw"; sx_int (int_of_nat i)]
   | NextCall i -> Sx.L [Sx.A "nc"; sx_int (int_of_nat i)]
   | NextRet i -> Sx.L [Sx.A "nr"; sx_int (int_of_nat i)]
+  | Sent -> Sx.L [Sx.A "sent"]
 
 let event_of (x : Sx.t) : event =
   match Sx.tag x, Sx.args x with
@@ -65,6 +69,7 @@ let event_of (x : Sx.t) : event =
   | "uw", [i] -> Unwind (nat_of_int (Sx.int_of i))
   | "nc", [i] -> NextCall (nat_of_int (Sx.int_of i))
   | "nr", [i] -> NextRet (nat_of_int (Sx.int_of i))
+  | "sent", [] -> Sent
   | _ -> failwith ("event: " ^ Sx.show x)
 
 let sx_chunk : chunk -> Sx.t = function
@@ -73,12 +78,12 @@ let sx_chunk : chunk -> Sx.t = function
 
 (* the model's answer for one request, projected to what the harness can observe *)
 let model_result (c : cfg) : Sx.t =
-  let out = serve c.hs c.action c.head c.dev in
+  let out = serve c.hs c.action c.head c.dev c.apprh in
   let (s, esc) = (match out with
     | Done s -> (s, Sx.A "none")
     | Panicked (v, s) -> (s, sx_int (int_of_nat v))
     | OutOfFuel -> failwith "model out of fuel") in
-  let is_silent i = (try List.nth c.silent i with _ -> true) in
+  let is_silent i = i >= 0 && (try List.nth c.silent i with _ -> true) in
   let tr = List.filter (fun e -> not (is_silent (ev_index e))) s.trace in
   Sx.L [Sx.A "r"; Sx.L (Sx.A "trace" :: List.map sx_event tr); Sx.L [Sx.A "status"; sx_int (int_of_z s.status)];
         Sx.L (Sx.A "body" :: List.map sx_chunk s.body); Sx.L [Sx.A "escaped"; esc]]
@@ -105,23 +110,32 @@ let eval_c03 (input : Sx.t) (obs : Sx.t) =
   let cls = Printf.sprintf "len%s%s%s" (if List.length c.hs >= 5 then ">=5" else "<5") (if multi then ",multi-next" else "") (if List.exists has_panic c.hs then ",panic" else "") in
   (m, spec, (multi || nexts >= 2) && List.length c.hs >= 2, cls)
 
-(* C14: the first handler that returns something decides the response when nothing was written before it *)
+(* C14: the first handler that returns something decides the response when nothing was written before
+   it; a ReturnHandler mapped in the request scope (by an earlier handler) or in the application scope
+   replaces the table *)
 let eval_c14 (input : Sx.t) (obs : Sx.t) =
   let c = cfg_of input in
   let m = repeat c.reps (model_result c) in
   let all = c.hs @ (match c.action with Some a -> [a] | None -> []) in
-  let rec first = function
-    | HNormal ([], ret) :: rest -> (match (if supported ret then table ret else None) with
-        | Some (st, b) -> Some (ret, st, b)
-        | None -> if ret = [] || supported ret then first rest else None)
-    | _ -> None in
-  let (spec, cls, nt) = (match first all with
-    | Some (ret, st, b) ->
+  let custom k = let k = int_of_nat k in (Some (z_of_int (290 + k), [n_of_int 82; n_of_int (48 + k)]), true) in
+  let rec first rh = function
+    | HNormal (acts, ret) :: rest when List.for_all (function AMapRH _ -> true | _ -> false) acts ->
+        let rh' = List.fold_left (fun r a -> match a with AMapRH k -> Some k | _ -> r) rh acts in
+        if ret = [] then first rh' rest
+        else (match rh', c.apprh with
+          | Some k, _ -> custom k
+          | None, Some k -> custom k
+          | None, None ->
+              if not (supported ret) then (None, false)
+              else (match table ret with Some (st, b) -> (Some (st, b), false) | None -> first rh' rest))
+    | _ -> (None, false) in
+  let (spec, cls, nt) = (match first None all with
+    | (Some (st, b), over) ->
         let ok = List.for_all (fun r ->
           obs_status r = int_of_z st &&
           (c.head || obs_body_concat r = ocaml_string_of_str b)) (Sx.args obs) in
-        (ok, Printf.sprintf "decided,shape=%d" (List.length ret), true)
-    | None -> (true, "undecided", false)) in
+        (ok, (if over then "override" else Printf.sprintf "table"), true)
+    | (None, _) -> (true, "undecided", false)) in
   (m, spec, nt, cls)
 
 (* C15: Recovery present, handlers before it do not panic themselves (the property has no further premise;
